@@ -105,6 +105,7 @@ class Ctx:
         self.known_hits = collections.Counter()
         self.engines = collections.OrderedDict()
         self.notes = []
+        self.payload = []   # free-form results handed from workers to the coordinating process
 
     # ---- counting ---------------------------------------------------
     def note(self, key=None, nontrivial=False, cls=None, sample=None, n=1):
@@ -184,6 +185,7 @@ class Ctx:
             "known_hits": self.known_hits,
             "engines": self.engines,
             "notes": self.notes,
+            "payload": self.payload,
         }
 
     def merge(self, e):
@@ -206,6 +208,7 @@ class Ctx:
         for name, rec in e["engines"].items():
             self.engine(name, **rec)
         self.notes.extend(e["notes"])
+        self.payload.extend(e.get("payload", []))
 
     def child(self):
         return Ctx(self.prop, self.tier, self.seed, self.known_buckets)
